@@ -30,6 +30,14 @@ CLAIMS["C03"] = (
     "decided: native stack depth, UI protocol liveness.",
     "panic-site inventory + loop-progress (ranking) analysis on MIR CFGs")
 
+CLAIMS["C14"] = (
+    "decides the structural half of RENUM: the set of statements carrying line-number operands "
+    "is derived from parser and code generator and must be covered arm by arm by the RENUM "
+    "visitor; splice offsets are bytes (char_indices provenance); sentinel/default operands are "
+    "guarded; step 0 rejected; no error exit after the single store of the new listing; guards of "
+    "Runtime::renum dominate. Behavioural identity of the renumbered program is not decided.",
+    "writer/reader table agreement (parser x codegen x visitor) + provenance + guard dominance")
+
 NOT_APPLICABLE = {}
 
 
